@@ -95,16 +95,23 @@ def group(recs, doc, tmap):
             j += 1
         return out, j
 
+    senq_last = []          # events queued during the last selection that was parsed
+
     def selection(j, kind):
         """R[j] is SE or SV; returns (ts, gv, j after EN)"""
         assert R[j][0] == kind
         j += 1
         gv = {}
-        while j < n and R[j][0] == "G":
-            try:
-                gv[int(R[j][1])] = bool(R[j][2]) if isinstance(R[j][2], bool) else None
-            except Exception:
-                pass
+        del senq_last[:]
+        while j < n and R[j][0] in ("G", "IQ", "IS", "HK"):
+            if R[j][0] == "G":
+                try:
+                    gv[int(R[j][1])] = bool(R[j][2]) if isinstance(R[j][2], bool) else None
+                except Exception:
+                    pass
+            elif R[j][0] in ("IQ", "IS"):
+                # an event queued *during* the selection (a guard that failed to evaluate: error.execution)
+                senq_last.append(R[j][1].split("."))
             j += 1
         if j >= n or R[j][0] != "EN":
             raise Malformed("no EN after %s at %d" % (kind, j))
@@ -119,9 +126,9 @@ def group(recs, doc, tmap):
             return True, obs, j2 + 1
         return False, [], j
 
-    def step(k, ev=None, ts=None, gv=None, obs=None, micro_=False, elchk=True, evrec=None, pre=None, egv=None):
+    def step(k, ev=None, ts=None, gv=None, obs=None, micro_=False, elchk=True, evrec=None, pre=None, egv=None, senq=None, esenq=None):
         return {"k": k, "ev": ev or [], "ts": ts or [], "gv": gv or [], "obs": obs or [], "micro": micro_,
-                "elchk": elchk, "pre": pre or [], "evrec": evrec, "egv": egv or []}
+                "elchk": elchk, "pre": pre or [], "evrec": evrec, "egv": egv or [], "senq": senq or [], "esenq": esenq or []}
 
     try:
         if n == 0 or R[0][0] != "INIT":
@@ -132,26 +139,30 @@ def group(recs, doc, tmap):
             i += 1
         elchk = False
         elgv = []
+        elsq = []
         while i < n:
             k = R[i][0]
             if k == "SE":
                 ts, gv, i = selection(i, "SE")
+                sq = list(senq_last)
                 if ts:
                     m, obs, i = micro(i)
-                    steps.append(step("eventless", ts=ts, gv=gv, obs=obs, micro_=m))
+                    steps.append(step("eventless", ts=ts, gv=gv, obs=obs, micro_=m, senq=sq))
                     elchk = False
                 else:
                     elchk = True
                     elgv = gv
+                    elsq = sq
             elif k == "IR":
                 evrec = R[i][1]
                 ts, gv, i = selection(i + 1, "SV")
+                sq = list(senq_last)
                 m, obs, i = micro(i)
                 steps.append(step("internal", ev=evrec["name"].split("."), ts=ts, gv=gv, obs=obs, micro_=m,
-                                  elchk=elchk, evrec=evrec, egv=elgv if elchk else []))
+                                  elchk=elchk, evrec=evrec, egv=elgv if elchk else [], senq=sq, esenq=elsq if elchk else []))
                 elchk = False
             elif k == "IDLE":
-                steps.append(step("idle", elchk=elchk, egv=elgv if elchk else []))
+                steps.append(step("idle", elchk=elchk, egv=elgv if elchk else [], esenq=elsq if elchk else []))
                 elchk = False
                 i += 1
             elif k == "XR":
@@ -162,9 +173,10 @@ def group(recs, doc, tmap):
                     continue
                 pre, i = take_obs(i + 1, ("SV",))
                 ts, gv, i = selection(i, "SV")
+                sq = list(senq_last)
                 m, obs, i = micro(i)
                 steps.append(step("external", ev=evrec["name"].split("."), ts=ts, gv=gv, obs=obs, micro_=m,
-                                  evrec=evrec, pre=pre))
+                                  evrec=evrec, pre=pre, senq=sq))
             elif k in ("M", "IQ", "IS", "CI", "E", "X"):
                 # content outside any bracket: exitInterpreter (after the loop) or invoke phase
                 obs, i = take_obs(i, ("LEND", "END", "SE", "IDLE", "IR", "XR"))
@@ -184,7 +196,7 @@ def group(recs, doc, tmap):
                 raise Malformed("unexpected %s at %d" % (k, i))
     except Malformed as e:
         steps.append({"k": "malformed", "ev": [], "ts": [], "gv": [], "obs": [], "micro": False, "elchk": False,
-                      "pre": [], "evrec": None, "egv": [], "why": str(e)})
+                      "pre": [], "evrec": None, "egv": [], "senq": [], "esenq": [], "why": str(e)})
     return steps
 
 
@@ -196,6 +208,7 @@ def trace_for_tlc(doc_index, sent, steps, final, doc):
         evf = [val_str(er.get(k)) for k in ("name", "type", "sendid", "origin", "origintype", "invokeid", "data")] if er else []
         out.append({"k": s["k"], "ev": s["ev"], "ts": s["ts"], "gv": s["gv"],
                     "obs": [o for o in s["obs"] if o["k"] != "cancelinvoke"], "micro": s["micro"],
-                    "elchk": s["elchk"], "pre": s["pre"], "egv": s["egv"], "evf": evf})
+                    "elchk": s["elchk"], "pre": s["pre"], "egv": s["egv"], "evf": evf,
+                    "senq": s.get("senq", []), "esenq": s.get("esenq", [])})
     fin = sorted(x for x in (doc.ids.get(nm, 1 if nm.startswith("__id") else -1) for nm in (final or [])) if x != 1)
     return {"d": doc_index, "sent": sent, "steps": out, "final": fin, "hasfinal": final is not None}
